@@ -4,6 +4,7 @@
 mod gen;
 mod ops;
 mod types;
+mod zst;
 
 use gen::*;
 use ops::*;
@@ -100,6 +101,7 @@ fn run_stream<H: HX>(a: &Args, sink: &mut Sink) -> serde_json::Value {
         "c15" => random_stream::<H>(sink, &mut rng, &both, &weights_with(&[("serde_rt", 150), ("deser", 150), ("deser_unit", 25), ("deser_bad", 150), ("ser_fail", 60), ("deser_hint", 150)]), n, l),
         "c16" => random_stream::<H>(sink, &mut rng, &both, &weights_with(&[("drain", 150), ("clear", 80)]), n, l),
         "c17_oom" => { extra = oom_stream::<H>(sink, &mut rng, &both); }
+        "zst" => zst::zst_stream(sink, &mut rng, if thorough { 2000 } else { 300 }),
         "c17" => random_stream::<H>(sink, &mut rng, &both, &weights_with(&[("capacity", 400)]), n, l),
         x => { eprintln!("unknown stream {}", x); std::process::exit(2) }
     }
